@@ -10,7 +10,8 @@ EXHAUSTIVE = {'quick': True, 'thorough': True}
 RULE = ('load graphs over files main.scss (entry), a.scss and d/b.scss: every file has a list of load statements, each '
         '(kind in @use/@forward/@import/meta.load-css) x (target file) x (URL spelling in plain `a`, `./a`, `d/../a` and the '
         'matching forms from inside d/), compiled through the in-memory loader which resolves . and .. like a file system.  '
-        'quick: ALL graphs with out-degree <= 1 per file (37^3 = 50 653), then random graphs over 2..6 files with out-degree '
+        'quick: ALL graphs with out-degree <= 1 per file (37^3 = 50 653), the same space again over main.scss, the directory index '
+        'k/_index.scss and k/s/y.scss with the spellings `k` / `..`, `k/.` / `../.` and `k/_index`, then random graphs over 2..6 files with out-degree '
         '<= 2, more placements (partials, d/e/) and more spellings (explicit extension, underscore, ./d/e/../../x).  thorough: '
         'additionally ALL graphs with out-degree <= 2 for the entry and <= 1 for the others (1 824 877).  Distinct by the graph; '
         'every graph with at least one edge is non-trivial.  Oracle: a cycle reachable from the entry => the result is a loop '
@@ -114,11 +115,17 @@ def check_case(ctx, graph):
     run_graphs(ctx, [graph])
 
 
-def _exhaust(ctx, max_out):
+INDEX_FILES = ['main.scss', 'k/_index.scss', 'k/s/y.scss']
+INDEX_VARIANTS = ('plain', 'enddot', 'underscore')
+
+
+def _exhaust(ctx, max_out, files=BASE_FILES, variants=('plain', 'dot', 'updown')):
     """This shard's slice of the exhaustive space; False when the budget ran out."""
     chunk = []
-    for idx, g in enumerate(lg.enumerate_graphs(BASE_FILES, max_out)):
+    for idx, g in enumerate(lg.enumerate_graphs(files, max_out, variants=variants)):
         if idx % ctx.nshards != ctx.shard:
+            continue
+        if not lg.valid(g):
             continue
         chunk.append(g)
         if len(chunk) >= 400:
@@ -135,6 +142,10 @@ def worker(ctx):
     ok = _exhaust(ctx, [1, 1, 1])
     if ok:
         ctx.stat('exhaustive_outdeg1_completed')
+        # the same space over a directory-index module and a file below it (URLs `k`, `..`, `k/.`, `../.`, `k/_index`)
+        ok = _exhaust(ctx, [1, 1, 1], INDEX_FILES, INDEX_VARIANTS)
+        if ok:
+            ctx.stat('exhaustive_outdeg1_index_completed')
     if ok and not ctx.quick:
         # keep a fifth of the budget for the random part
         ctx.deadline -= BUDGET['thorough'] * 0.2
